@@ -163,6 +163,12 @@ def gen_from(prop, cid, text_e, text_d, ctors, traits, kind, types):
         checks.append("{ let (ha, hb, hx, hy) = (%sflat_hash(&a), %sflat_hash(&b), %sflat_hash(&x), %sflat_hash(&y)); "
                       "if (x == y && ha != hb) || ((ha == hb) != (hx == hy)) { bad += 1; if first.is_empty() { first = format!(\"hasher input of values {} and {}: educe equal = {}, derive equal = {}, derive == is {}\", i, j, ha == hb, hx == hy, x == y); } } }"
                       % (RT, RT, RT, RT))
+    if "Hash" in T:
+        # the same inside slices (`hash_slice` is a provided method an impl could override): the two orders of a pair feed
+        # the same data exactly when they do for the derive
+        checks.append("{ let (s1, s2, t1, t2) = (%sflat_hash(&[mk!(e, i), mk!(e, j)][..]), %sflat_hash(&[mk!(e, j), mk!(e, i)][..]), %sflat_hash(&[mk!(d, i), mk!(d, j)][..]), %sflat_hash(&[mk!(d, j), mk!(d, i)][..])); "
+                      "if (s1 == s2) != (t1 == t2) { bad += 1; if first.is_empty() { first = format!(\"hasher input of the slices [{}, {}] and [{}, {}]: educe equal = {}, derive equal = {}\", i, j, j, i, s1 == s2, t1 == t2); } } }"
+                      % (RT, RT, RT, RT))
     single = []
     if "Debug" in T:
         single.append("if format!(\"{:?}\", a) != format!(\"{:?}\", x) || format!(\"{:#?}\", a) != format!(\"{:#?}\", x) || format!(\"{:08.3?}\", a) != format!(\"{:08.3?}\", x) "
@@ -195,8 +201,19 @@ def big_enum(prop, mode):
     return c
 
 
+def big_unit_enum(prop, mode):
+    """300 variants, none with data"""
+    traits = [t for t in MODES[mode]]
+    n = 300
+    vs = "".join("    V%d,\n" % i for i in range(n))
+    text_e = "#[derive(::educe::Educe)]\n#[educe(%s)]\npub enum Ty {\n%s}\n" % (", ".join(traits), vs)
+    text_d = "#[derive(%s)]\npub enum Ty {\n%s}\n" % (", ".join(traits), vs)
+    picks = [0, 1, 2, 127, 128, 129, 254, 255, 256, 257, 299]
+    return gen_from(prop, "wbigu", text_e, text_d, ["$m::Ty::V%d" % i for i in picks], traits, "enum", [])
+
+
 def cases(seed, prop, n, mode):
-    out = [big_enum(prop, mode)]
+    out = [big_enum(prop, mode), big_unit_enum(prop, mode)]
     for k in range(n):
         c = gen(seed, prop, k, mode)
         if c is not None:
